@@ -456,17 +456,28 @@ pub fn main() {
         // of P and of Q; the whole Miller loop and final exponentiation run symbolically, only the
         // dependency structure of the result is inspected by the checker
         "wrap" => {
-            for m in ["jj", "oj", "jo", "aa"] {
+            // outputs: the 12 coordinates of the result, then (allowed dependencies) the affine coordinates of
+            // P and Q as computed by the separately verified to_affine (flag + coordinates each)
+            fn aff_ids(mp: u8, mq: u8) -> Vec<u32> {
+                let a = optf(g1pt("P", mp).to_affine(), 2, |a| cat(o1(a.x()), o1(a.y())));
+                let b = optf(g2pt("Q", mq).to_affine(), 4, |a| cat(o2(a.x()), o2(a.y())));
+                cat(a, b)
+            }
+            for m in ["jj", "oj", "jo", "aa", "ja", "aj"] {
                 let (mp, mq) = (m.as_bytes()[0], m.as_bytes()[1]);
                 let n = format!("wrap_pairing_{}", m);
                 if want(&n) {
-                    explore(&n, 0, 1, || o12(&ph::raw_pairing(&g1pt("P", mp), &g2pt("Q", mq))));
+                    explore(&n, 0, 1, || {
+                        let r = crate::verif_alg::gt_inner(crate::pairing(crate::G1(g1pt("P", mp)), crate::verif_alg::pubg2(g2pt("Q", mq))));
+                        cat(cat(o12(&r), o12(&r)), aff_ids(mp, mq))
+                    });
                 }
                 let n = format!("wrap_fast_{}", m);
                 if want(&n) {
                     explore(&n, 0, 1, || {
                         let (p, q) = (crate::G1(g1pt("P", mp)), crate::verif_alg::pubg2(g2pt("Q", mq)));
-                        o12(&crate::verif_alg::gt_inner(crate::fast_pairing(p, q)))
+                        let r = crate::verif_alg::gt_inner(crate::fast_pairing(p, q));
+                        cat(cat(o12(&r), o12(&r)), aff_ids(mp, mq))
                     });
                 }
                 let n = format!("wrap_prepared_{}", m);
@@ -476,7 +487,7 @@ pub fn main() {
                         let prep = crate::G2Prepared::from(q);
                         let a = prep.pairing(&p);
                         let b = prep.pairing(&p);
-                        cat(o12(&crate::verif_alg::gt_inner(a)), o12(&crate::verif_alg::gt_inner(b)))
+                        cat(cat(o12(&crate::verif_alg::gt_inner(a)), o12(&crate::verif_alg::gt_inner(b))), aff_ids(mp, mq))
                     });
                 }
             }
